@@ -4,6 +4,7 @@ package types
 import (
 	"encoding/json"
 	"fmt"
+	"math/rand"
 	"sort"
 	"strings"
 
@@ -260,7 +261,7 @@ func exec(kind byte, body []byte) *core.Verdict {
 
 func exec1(kind byte, body []byte) *core.Verdict {
 	if kind == 'B' {
-		return &core.Verdict{OK: true, Out: true}
+		return genTypes(body)
 	}
 	var c cas
 	if err := json.Unmarshal(body, &c); err != nil {
@@ -362,4 +363,492 @@ func check(r *core.Run) {
 	}
 	// what a name denotes may change between two runs over one set (a newer revision of the imported module arrives)
 	schema.SessionHistories(r, "C09", "bb-r2")
+	// direction B: random scope structures, judged by TypesTrace / TypesG
+	n := 300
+	if r.Tier == "thorough" {
+		n = 5000
+	}
+	r.DirectionB("types", n, core.TLCOpts{Module: "TypesTrace", Cfg: "TypesTrace.cfg", HeapGB: 8})
+}
+
+// ---- direction B: random scope structures judged by TypesTrace.tla / TypesG.tla ------------
+
+type gScope struct {
+	id     int
+	kind   string // top container list grouping rpc action input output notification
+	parent int    // 0 for a top scope
+	root   string
+	kids   []int
+	tds    []int // indices into gProg.tds
+	uses   []int
+}
+type gOwn struct {
+	Fd      int      `json:"fd"`
+	Enums   []string `json:"enums"`
+	Bits    []string `json:"bits"`
+	Path    string   `json:"path"`
+	Members []qn     `json:"members"`
+}
+type gTd struct {
+	Scope int    `json:"scope"`
+	Name  string `json:"name"`
+	Base  qn     `json:"base"`
+	Units string `json:"units"`
+	Dflt  string `json:"dflt"`
+	Pat   string `json:"pat"`
+	Own   gOwn   `json:"own"`
+}
+type gObs struct {
+	Kind    string              `json:"kind"`
+	Units   string              `json:"units"`
+	Dflt    string              `json:"dflt"`
+	HasDflt bool                `json:"hasdflt"`
+	Dvals   []string            `json:"dvals"`
+	Pats    []string            `json:"pats"`
+	Fd      int                 `json:"fd"`
+	Enums   []string            `json:"enums"`
+	Bits    []string            `json:"bits"`
+	Path    string              `json:"path"`
+	Members []map[string]string `json:"members"`
+}
+type gUse struct {
+	Name  string `json:"name"`
+	Scope int    `json:"scope"`
+	Ref   qn     `json:"ref"`
+	Pat   string `json:"pat"`
+	Own   gOwn   `json:"own"`
+	Obs   *gObs  `json:"obs"`
+}
+type gImp struct {
+	P   string `json:"p"`
+	Mod string `json:"mod"`
+}
+type gRoot struct {
+	Name  string   `json:"name"`
+	Owner string   `json:"owner"`
+	Pfx   string   `json:"pfx"`
+	Incs  []string `json:"incs"`
+	Imps  []gImp   `json:"imps"`
+	Top   int      `json:"top"`
+}
+
+var gNames = []string{"t0", "t1", "t2", "t3", "t4", "t5"}
+
+func emptyOwn() gOwn { return gOwn{Enums: []string{}, Bits: []string{}, Members: []qn{}} }
+
+func genTypes(body []byte) *core.Verdict {
+	var q struct {
+		Seed int64
+		Tid  int
+	}
+	json.Unmarshal(body, &q)
+	rng := rand.New(rand.NewSource(q.Seed*15485863 + int64(q.Tid)))
+	// ---- modules and submodules ----
+	nm := 1 + rng.Intn(3)
+	var roots []gRoot
+	scopes := []*gScope{nil} // ids start at 1
+	newScope := func(kind string, parent int, root string) *gScope {
+		s := &gScope{id: len(scopes), kind: kind, parent: parent, root: root}
+		scopes = append(scopes, s)
+		if parent != 0 {
+			scopes[parent].kids = append(scopes[parent].kids, s.id)
+		}
+		return s
+	}
+	samePfx := rng.Intn(5) == 0 // every module calls itself "pp" (importers use prefixes of their own)
+	for i := 0; i < nm; i++ {
+		name := fmt.Sprintf("m%d", i)
+		pfx := fmt.Sprintf("p%d", i)
+		if samePfx {
+			pfx = "pp"
+		}
+		r := gRoot{Name: name, Pfx: pfx, Incs: []string{}, Imps: []gImp{}}
+		for j := 0; j < i; j++ {
+			if rng.Intn(4) > 0 {
+				r.Imps = append(r.Imps, gImp{P: fmt.Sprintf("i%d", j), Mod: fmt.Sprintf("m%d", j)})
+			}
+		}
+		r.Top = newScope("top", 0, name).id
+		ns := rng.Intn(3)
+		var subs []gRoot
+		for s := 1; s <= ns; s++ {
+			sn := fmt.Sprintf("m%ds%d", i, s)
+			r.Incs = append(r.Incs, sn)
+			sr := gRoot{Name: sn, Owner: name, Pfx: "own" + fmt.Sprint(i), Incs: []string{}, Imps: []gImp{}}
+			for j := 0; j < i; j++ { // a submodule imports for itself, under prefixes of its own
+				if rng.Intn(3) > 0 {
+					sr.Imps = append(sr.Imps, gImp{P: fmt.Sprintf("s%d", j), Mod: fmt.Sprintf("m%d", j)})
+				}
+			}
+			sr.Top = newScope("top", 0, sn).id
+			subs = append(subs, sr)
+		}
+		roots = append(roots, r)
+		roots = append(roots, subs...)
+	}
+	rootOf := map[string]*gRoot{}
+	for i := range roots {
+		rootOf[roots[i].Name] = &roots[i]
+	}
+	// ---- nested scopes ----
+	allowed := map[string][]string{
+		"top":          {"container", "container", "list", "grouping", "rpc", "notification"},
+		"container":    {"container", "list", "grouping", "action", "notification"},
+		"list":         {"container", "list", "grouping", "action"},
+		"grouping":     {"container", "list", "grouping"},
+		"rpc":          {"input", "output"},
+		"action":       {"input", "output"},
+		"input":        {"container", "list", "grouping"},
+		"output":       {"container", "list", "grouping"},
+		"notification": {"container", "list", "grouping"},
+	}
+	depth := func(s int) int {
+		d := 0
+		for ; s != 0; s = scopes[s].parent {
+			d++
+		}
+		return d
+	}
+	for n := 3 + rng.Intn(12); n > 0; n-- {
+		p := scopes[1+rng.Intn(len(scopes)-1)]
+		if depth(p.id) >= 6 {
+			continue
+		}
+		ks := allowed[p.kind]
+		k := ks[rng.Intn(len(ks))]
+		if k == "input" || k == "output" {
+			dup := false
+			for _, c := range p.kids {
+				dup = dup || scopes[c].kind == k
+			}
+			if dup {
+				continue
+			}
+		}
+		newScope(k, p.id, p.root)
+	}
+	// ---- typedefs ----
+	var tds []gTd
+	enumPool := []string{"red", "green", "blue", "black", "white"}
+	simple := []string{"string", "int8", "boolean", "empty", "binary", "uint16"}
+	uniq := 0
+	pickRef := func(sc *gScope, after int) qn {
+		// a name later in the fixed order than the referring typedef's own (no cycle whatever it binds to) ...
+		lo := after + 1
+		if rng.Intn(120) == 0 {
+			lo = 0 // ... except now and then
+		}
+		if lo >= len(gNames) {
+			return qn{N: "string"}
+		}
+		n := gNames[lo+rng.Intn(len(gNames)-lo)]
+		if rng.Intn(200) == 0 {
+			n = "nosuch"
+		}
+		r := rootOf[sc.root]
+		switch x := rng.Intn(10); {
+		case x < 5:
+			return qn{N: n}
+		case x < 7:
+			return qn{P: r.Pfx, N: n}
+		default:
+			if len(r.Imps) > 0 {
+				return qn{P: r.Imps[rng.Intn(len(r.Imps))].P, N: n}
+			}
+			return qn{N: n}
+		}
+	}
+	builtinOwn := func(sc *gScope, after int) (qn, gOwn, string) {
+		own := emptyOwn()
+		pat := ""
+		switch rng.Intn(9) {
+		case 0, 1:
+			if rng.Intn(2) == 0 {
+				uniq++
+				pat = fmt.Sprintf("p%d.*", uniq%4) // few distinct patterns: equal ones along a chain are listed once
+			}
+			return qn{N: "string"}, own, pat
+		case 2:
+			return qn{N: "int32"}, own, ""
+		case 3:
+			own.Fd = 1 + rng.Intn(18)
+			return qn{N: "decimal64"}, own, ""
+		case 4:
+			rng.Shuffle(len(enumPool), func(i, j int) { enumPool[i], enumPool[j] = enumPool[j], enumPool[i] })
+			own.Enums = append([]string{}, enumPool[:1+rng.Intn(3)]...)
+			return qn{N: "enumeration"}, own, ""
+		case 5:
+			rng.Shuffle(len(enumPool), func(i, j int) { enumPool[i], enumPool[j] = enumPool[j], enumPool[i] })
+			own.Bits = append([]string{}, enumPool[:1+rng.Intn(3)]...)
+			return qn{N: "bits"}, own, ""
+		case 6:
+			own.Path = fmt.Sprintf("/%s:tgt%d", rootOf[sc.root].Pfx, 1+rng.Intn(3))
+			return qn{N: "leafref"}, own, ""
+		case 7:
+			rng.Shuffle(len(simple), func(i, j int) { simple[i], simple[j] = simple[j], simple[i] })
+			nmem := 1 + rng.Intn(3)
+			usedN := map[string]bool{}
+			for k := 0; k < nmem; k++ {
+				if rng.Intn(2) == 0 {
+					own.Members = append(own.Members, qn{N: simple[k]})
+				} else if r := pickRef(sc, after); !usedN[r.N] && r.N != "string" {
+					usedN[r.N] = true
+					own.Members = append(own.Members, r)
+				}
+			}
+			if len(own.Members) == 0 {
+				own.Members = append(own.Members, qn{N: "boolean"})
+			}
+			return qn{N: "union"}, own, ""
+		}
+		return qn{N: "boolean"}, own, ""
+	}
+	addTd := func(sc *gScope, ni int) {
+		for _, k := range sc.tds {
+			if tds[k].Name == gNames[ni] {
+				return
+			}
+		}
+		t := gTd{Scope: sc.id, Name: gNames[ni], Own: emptyOwn()}
+		if ni == len(gNames)-1 || rng.Intn(10) < 4 {
+			t.Base, t.Own, t.Pat = builtinOwn(sc, ni)
+		} else {
+			t.Base = pickRef(sc, ni)
+			if rng.Intn(4) == 0 {
+				uniq++
+				t.Pat = fmt.Sprintf("p%d.*", uniq%4)
+			}
+		}
+		uniq++
+		if rng.Intn(2) == 0 {
+			t.Units = fmt.Sprintf("U%d", uniq)
+		}
+		if rng.Intn(3) == 0 {
+			t.Dflt = fmt.Sprintf("D%d", uniq)
+		}
+		sc.tds = append(sc.tds, len(tds))
+		tds = append(tds, t)
+	}
+	// top level: a module and its submodules share one name space, so a name is defined by at most one of them
+	// (which of two such definitions would win is not something the statement pins)
+	for _, r := range roots {
+		if r.Owner != "" {
+			continue
+		}
+		fam := []gRoot{r}
+		for _, in := range r.Incs {
+			fam = append(fam, *rootOf[in])
+		}
+		for ni := range gNames {
+			if rng.Intn(100) < 98 {
+				h := fam[0]
+				if len(fam) > 1 && rng.Intn(3) == 0 {
+					h = fam[1+rng.Intn(len(fam)-1)]
+				}
+				addTd(scopes[h.Top], ni)
+			}
+		}
+	}
+	for n := rng.Intn(3 * len(scopes)); n > 0; n-- {
+		if sc := scopes[1+rng.Intn(len(scopes)-1)]; sc.kind != "top" {
+			addTd(sc, rng.Intn(len(gNames)))
+		}
+	}
+	// ---- uses: leaves with a type ----
+	var uses []gUse
+	for n := 2 + rng.Intn(2*len(scopes)); n > 0; n-- {
+		sc := scopes[1+rng.Intn(len(scopes)-1)]
+		if sc.kind == "rpc" || sc.kind == "action" {
+			continue // no data nodes directly below
+		}
+		u := gUse{Name: fmt.Sprintf("lf%d", len(uses)), Scope: sc.id, Own: emptyOwn()}
+		if rng.Intn(10) < 3 {
+			u.Ref, u.Own, u.Pat = builtinOwn(sc, -1)
+		} else {
+			u.Ref = pickRef(sc, -1)
+			if rng.Intn(5) == 0 {
+				uniq++
+				u.Pat = fmt.Sprintf("p%d.*", uniq%4)
+			}
+		}
+		sc.uses = append(sc.uses, len(uses))
+		uses = append(uses, u)
+	}
+	// ---- rendering ----
+	typeStmt := func(ref qn, pat string, own gOwn) string {
+		var sub []string
+		if ref.P == "" {
+			switch ref.N {
+			case "decimal64":
+				sub = append(sub, fmt.Sprintf("fraction-digits %d;", own.Fd))
+			case "enumeration":
+				for _, e := range own.Enums {
+					sub = append(sub, "enum "+e+";")
+				}
+			case "bits":
+				for _, e := range own.Bits {
+					sub = append(sub, "bit "+e+";")
+				}
+			case "leafref":
+				sub = append(sub, fmt.Sprintf("path %q;", own.Path))
+			case "union":
+				for _, m := range own.Members {
+					sub = append(sub, "type "+m.String()+";")
+				}
+			}
+		}
+		if pat != "" {
+			sub = append(sub, fmt.Sprintf("pattern %q;", pat))
+		}
+		if len(sub) == 0 {
+			return "type " + ref.String() + ";"
+		}
+		return "type " + ref.String() + " { " + strings.Join(sub, " ") + " }"
+	}
+	var render func(sc *gScope, ind string) string
+	render = func(sc *gScope, ind string) string {
+		var b strings.Builder
+		for _, k := range sc.tds {
+			t := tds[k]
+			fmt.Fprintf(&b, "%stypedef %s { %s", ind, t.Name, typeStmt(t.Base, t.Pat, t.Own))
+			if t.Units != "" {
+				fmt.Fprintf(&b, " units %q;", t.Units)
+			}
+			if t.Dflt != "" {
+				fmt.Fprintf(&b, " default %q;", t.Dflt)
+			}
+			b.WriteString(" }\n")
+		}
+		for _, k := range sc.uses {
+			u := uses[k]
+			fmt.Fprintf(&b, "%sleaf %s { %s }\n", ind, u.Name, typeStmt(u.Ref, u.Pat, u.Own))
+		}
+		for _, c := range sc.kids {
+			ch := scopes[c]
+			inner := render(ch, ind+"  ")
+			switch ch.kind {
+			case "list":
+				fmt.Fprintf(&b, "%slist s%d { key k; leaf k { type string; }\n%s%s}\n", ind, c, inner, ind)
+			case "grouping":
+				fmt.Fprintf(&b, "%sgrouping g%d {\n%s%s}\n%scontainer ug%d { uses g%d; }\n", ind, c, inner, ind, ind, c, c)
+			case "input", "output":
+				fmt.Fprintf(&b, "%s%s {\n%s%s}\n", ind, ch.kind, inner, ind)
+			default:
+				fmt.Fprintf(&b, "%s%s s%d {\n%s%s}\n", ind, ch.kind, c, inner, ind)
+			}
+		}
+		return b.String()
+	}
+	text := map[string]string{}
+	var files []string
+	for _, r := range roots {
+		var b strings.Builder
+		if r.Owner == "" {
+			fmt.Fprintf(&b, "module %s { namespace \"urn:%s\"; prefix %s;\n", r.Name, r.Name, r.Pfx)
+		} else {
+			fmt.Fprintf(&b, "submodule %s { belongs-to %s { prefix %s; }\n", r.Name, r.Owner, r.Pfx)
+		}
+		for _, im := range r.Imps {
+			fmt.Fprintf(&b, "  import %s { prefix %s; }\n", im.Mod, im.P)
+		}
+		for _, in := range r.Incs {
+			fmt.Fprintf(&b, "  include %s;\n", in)
+		}
+		if r.Owner == "" {
+			b.WriteString("  leaf tgt1 { type string; } leaf tgt2 { type string; } leaf tgt3 { type string; }\n")
+		}
+		b.WriteString(render(scopes[r.Top], "  "))
+		b.WriteString("}\n")
+		text[r.Name] = b.String()
+		files = append(files, r.Name)
+	}
+	var all strings.Builder
+	for _, f := range files {
+		all.WriteString(text[f])
+	}
+	// ---- the real library ----
+	ms := yang.NewModules()
+	order := append([]string{}, files...)
+	rng.Shuffle(len(order), func(i, j int) { order[i], order[j] = order[j], order[i] })
+	for _, f := range order {
+		if err := ms.Parse(text[f], f+".yang"); err != nil {
+			return &core.Verdict{Infra: "generated schema does not parse: " + err.Error() + "\n" + all.String()}
+		}
+	}
+	errs := ms.Process()
+	found := map[string]*yang.Entry{}
+	var walk func(e *yang.Entry)
+	walk = func(e *yang.Entry) {
+		if e == nil {
+			return
+		}
+		if e.Kind == yang.LeafEntry && strings.HasPrefix(e.Name, "lf") {
+			found[e.Name] = e
+		}
+		for _, c := range e.Dir {
+			walk(c)
+		}
+		if e.RPC != nil {
+			walk(e.RPC.Input)
+			walk(e.RPC.Output)
+		}
+	}
+	if len(errs) == 0 {
+		for _, r := range roots {
+			if r.Owner == "" {
+				walk(yang.ToEntry(ms.Modules[r.Name]))
+			}
+		}
+	}
+	for i := range uses {
+		o := &gObs{Dvals: []string{}, Pats: []string{}, Enums: []string{}, Bits: []string{}, Members: []map[string]string{}}
+		uses[i].Obs = o
+		if len(errs) > 0 {
+			continue
+		}
+		l := found[uses[i].Name]
+		if l == nil || l.Type == nil {
+			o.Kind = "leaf not found in the module tree"
+			continue
+		}
+		y := l.Type
+		o.Kind, o.Units, o.Dflt, o.HasDflt, o.Fd, o.Path = yang.TypeKindToName[y.Kind], y.Units, y.Default, y.HasDefault, y.FractionDigits, y.Path
+		o.Dvals = append(o.Dvals, l.DefaultValues()...)
+		o.Pats = append(o.Pats, y.Pattern...)
+		if y.Enum != nil {
+			o.Enums = append(o.Enums, y.Enum.Names()...)
+		}
+		if y.Bit != nil {
+			o.Bits = append(o.Bits, y.Bit.Names()...)
+		}
+		for _, m := range y.Type {
+			o.Members = append(o.Members, map[string]string{"kind": yang.TypeKindToName[m.Kind], "units": m.Units})
+		}
+	}
+	type jscope struct {
+		Parent int    `json:"parent"`
+		Root   string `json:"root"`
+	}
+	var js []jscope
+	for _, s := range scopes[1:] {
+		js = append(js, jscope{s.parent, s.root})
+	}
+	if tds == nil {
+		tds = []gTd{}
+	}
+	if uses == nil {
+		uses = []gUse{}
+	}
+	ev := map[string]any{"ev": "types", "scopes": js, "roots": roots, "tds": tds, "uses": uses, "err": len(errs) > 0, "yang": all.String()}
+	e0, _ := json.Marshal(map[string]any{"ev": "reset", "tid": q.Tid})
+	e1, _ := json.Marshal(ev)
+	class := "resolves"
+	if len(errs) > 0 {
+		class = "unresolvable"
+	}
+	v := &core.Verdict{OK: true, Class: "generated:" + class, NT: len(tds) >= 4 && len(errs) == 0, Events: []json.RawMessage{e0, e1}}
+	if q.Tid == 1 {
+		v.Sample = map[string]any{"yang": all.String()}
+	}
+	return v
 }
